@@ -819,7 +819,12 @@ func (w *ewWorld) final() {
 		if clean && pod != nil && !ewExited(pod) && pod.DeletionTimestamp.IsZero() && rec != nil && rec.Spec.HaveFixedIP() && ewFixedName(pod) &&
 			w.needsP(pod) && rec.DeletionTimestamp.IsZero() && rec.Status.Phase != networkv1beta1.ENIPhaseDeleting {
 			if rec.Status.Phase != networkv1beta1.ENIPhaseBind || rec.Annotations[terwayTypes.PodUID] != string(pod.UID) {
-				w.c.Violate("C11/rebind/fixed-record-not-rebound",
+				key := "C11/rebind/fixed-record-not-rebound"
+				if rec.Status.Phase == networkv1beta1.ENIPhaseBinding && rec.Annotations[terwayTypes.PodUID] != string(pod.UID) {
+					// the record was being re-bound for the previous instance when that one was replaced
+					key += "/binding-foreign-uid"
+				}
+				w.c.Violate(key,
 					fmt.Sprintf("pod %s (uid %s) runs and its fixed-IP record exists, yet at the fixed point the record is in phase %q for uid %q", k, pod.UID, rec.Status.Phase, rec.Annotations[terwayTypes.PodUID]), w.tail()...)
 			}
 		}
